@@ -157,6 +157,8 @@ func (n *maxNode) Next() (bool, error) {
 							res = res.SetUint64(v)
 						case float64:
 							res = res.SetFloat64(v)
+						case float32:
+							res = res.SetFloat64(float64(v))
 						default:
 							// a null (or non-numeric) value does not take part in the
 							// comparison; keep the extremum found so far
@@ -228,6 +230,39 @@ func (n *maxNode) Next() (bool, error) {
 							return value
 						}
 						res := big.NewFloat(childItem.Value())
+						if value == nil || res.Cmp(value) > 0 {
+							return res
+						}
+						return value
+					},
+				)
+
+			case []float32:
+				collectionMax, err = reduceItems(
+					childCollection,
+					&source,
+					lessN[float32],
+					nil,
+					func(childItem float32, value *big.Float) *big.Float {
+						res := big.NewFloat(float64(childItem))
+						if value == nil || res.Cmp(value) > 0 {
+							return res
+						}
+						return value
+					},
+				)
+
+			case []immutable.Option[float32]:
+				collectionMax, err = reduceItems(
+					childCollection,
+					&source,
+					lessO[float32],
+					nil,
+					func(childItem immutable.Option[float32], value *big.Float) *big.Float {
+						if !childItem.HasValue() {
+							return value
+						}
+						res := big.NewFloat(float64(childItem.Value()))
 						if value == nil || res.Cmp(value) > 0 {
 							return res
 						}
